@@ -8,7 +8,10 @@ import (
 	"net"
 	"sort"
 	"sync"
+	"sync/atomic"
 	"testing"
+	"testing/synctest"
+	"time"
 
 	"git.sr.ht/~adrian-blx/psa-dhcp/lib/dhcpmsg"
 	"git.sr.ht/~adrian-blx/psa-dhcp/lib/layer"
@@ -141,4 +144,65 @@ func TestC10Malformed(t *testing.T) {
 		}
 	}
 	vl.write(t, "c10panic", map[string]interface{}{"distinct_nontrivial": 0, "histogram": map[string]int{}, "samples": []string{}})
+}
+
+// TestC10Handlers: the whole handler (handleMsg: identity, search with ARP probes, verification of a REQUEST, reply) on
+// messages of every hardware-address length 0..16, DISCOVER and REQUEST, while hosts answer the ARP probes - with a foreign
+// hardware address, with the first octets of the client's (padded to six), and not at all.  The handler is called in this
+// goroutine, so a panic (which would kill the daemon) is caught and reported with the message as replay.
+func TestC10Handlers(t *testing.T) {
+	vl := &violationLog{}
+	st := newC19stats()
+	synctest.Test(t, func(t *testing.T) {
+		r := newRand(1010)
+		netU := uint32(0x0a630000)
+		cfg := srvCfg{netU: netU, maskU: 0xffffff00, bits: 24, lease: time.Minute, selfIP: netU + 1, selfMAC: []byte{2, 0xaa, 0, 0, 0, 1},
+			hasRange: true, rangeB: netU + 10, rangeE: netU + 12, router: ipStr(netU + 1)}
+		s, err := startServer(t, cfg)
+		if err != nil {
+			t.Fatalf("server.New: %v", err)
+		}
+		defer s.stop()
+		for hl := 0; hl <= 16; hl++ {
+			for _, typ := range []byte{1, 3} {
+				for _, who := range []string{"foreign", "prefix", "nobody"} {
+					mac := randBytes(r, hl)
+					answer := []byte{2, 0xcc, 0, 0, 0, 9}
+					if who == "prefix" {
+						answer = append(append([]byte{}, mac...), 0, 0, 0, 0, 0, 0)[:6]
+					}
+					s.arp = map[uint32]arpResp{}
+					s.arpSeen = map[uint32]int{}
+					if who != "nobody" {
+						for a := cfg.rangeB; a <= cfg.rangeE; a++ {
+							s.arp[a] = arpResp{ip: a, mac: answer, delay: time.Duration(1+r.Intn(150)) * time.Millisecond}
+						}
+					}
+					cl := &simClient{mac: mac, xid: r.Uint32()}
+					wm := cl.msg(typ, 0, 0)
+					src, dst := uint32(0), uint32(0xffffffff)
+					if typ == 3 {
+						wm = cl.msg(3, 0, 0, wopt{50, u32b(cfg.rangeB + uint32(r.Intn(3)))}, wopt{54, u32b(cfg.selfIP)})
+					}
+					wm.hlen = byte(hl)
+					m, err := dhcpmsg.Decode(wm.bytes())
+					if err != nil {
+						t.Fatalf("decode: %v", err)
+					}
+					atomic.AddInt64(&vl.n, 1)
+					st.count(fmt.Sprintf("hlen%d/type%d/%s", hl, typ, who))
+					var pv interface{}
+					func() {
+						defer func() { pv = recover() }()
+						s.srv.VerifHandleMsg(ip4(src), ip4(dst), *m)
+					}()
+					if pv != nil {
+						vl.add("panic", "handler panicked (%v) on a type-%d message with a %d-octet hardware address %x while %s answers the ARP probes", pv, typ, hl, mac, who)
+					}
+					time.Sleep(2 * time.Second)
+				}
+			}
+		}
+	})
+	vl.write(t, "c10handlers", st.meta(int(atomic.LoadInt64(&vl.n)), "handleMsg called directly for hlen 0..16 x DISCOVER/REQUEST x ARP answers from a foreign address / from the client's first octets / from nobody"))
 }
